@@ -188,3 +188,53 @@ Fixpoint trace_states (g : G nat nat) (h : list nat) : list (G nat nat) :=
 Definition trace (cells : list string) (h : list nat) : list (list (cstate nat nat)) :=
   let g := g0 nat nat kl_table (fun _ => 0) in
   map (fun st => map st cells) (g :: trace_states g h).
+
+(* ------------------------------------------------------------------ source translation (round 3) *)
+
+(* every attribute that some renderer method reads before writing it is Fresh after construction + setup_render,
+   whatever an earlier render left in it *)
+Definition state_reads : list string := map snd reads_before_write.
+Definition reset_ok (st : rstate) : bool :=
+  forallb (fun a => is_fresh (setup_render_src (init_src st) a)) state_reads.
+
+(* merge_file_level on named objects: parameters are objects 0, 1, 2 ...; a copy or a new value is a new object *)
+Fixpoint mlookup (v : string) (env : list (string * nat)) : option nat :=
+  match env with [] => None | (k, o) :: t => if String.eqb v k then Some o else mlookup v t end.
+
+Fixpoint merge_run (steps : list mstep) (env : list (string * nat)) (next : nat) (written returned : list nat)
+  : option (list nat * list nat) :=
+  match steps with
+  | [] => Some (written, returned)
+  | MBindCopy v p :: t => match mlookup p env with
+                          | Some _ => merge_run t ((v, next) :: env) (S next) written returned
+                          | None => None
+                          end
+  | MBindAlias v p :: t => match mlookup p env with
+                           | Some o => merge_run t ((v, o) :: env) next written returned
+                           | None => None
+                           end
+  | MBindFresh v :: t => merge_run t ((v, next) :: env) (S next) written returned
+  | MWrite v :: t => match mlookup v env with
+                     | Some o => merge_run t env next (o :: written) returned
+                     | None => None
+                     end
+  | MReturn v :: t => match mlookup v env with
+                      | Some o => merge_run t env next written (o :: returned)
+                      | None => None
+                      end
+  end.
+
+Fixpoint number_params (ps : list string) (n : nat) : list (string * nat) :=
+  match ps with [] => [] | p :: t => (p, n) :: number_params t (S n) end.
+
+Definition merge_result : option (list nat * list nat) :=
+  merge_run merge_file_level_src (number_params merge_file_level_params 0) (List.length merge_file_level_params) [] [].
+
+Definition mem_nat (n : nat) (l : list nat) : bool := existsb (Nat.eqb n) l.
+(* the config parameter is object 0: never written, never returned; something is returned *)
+Definition merge_copies_ok : bool :=
+  match merge_result with
+  | Some (written, returned) => negb (mem_nat 0 written) && negb (mem_nat 0 returned) &&
+                                match returned with [] => false | _ => true end
+  | None => false
+  end.
